@@ -15,7 +15,7 @@ pub fn def() -> PropDef {
         run,
         shrink: Shrink::Bytes,
         render: render_bytes,
-        rule: "truncated headers: 24 valid control pairs x every declared length x presence boundaries, every present count 0..16+len+1 for len <= L (quick 512, thorough 4096), plus U2-ctl / U2-sig / U2-byte; for each Partial(have, need) the header is completed with need-have bytes of three fillers (must be Ok with len()==16+need) and with one byte fewer (must be Partial(need-1, need)); non-trivial = reference says incomplete; distinct = hash of (control bytes, length, bytes present)",
+        rule: "truncated headers: 24 valid control pairs x every declared length x presence boundaries, every present count 0..16+len+1 for len <= L (quick 1024, thorough 4096), plus U2-ctl / U2-sig / U2-byte; for each Partial(have, need) the header is completed with need-have bytes of three fillers (must be Ok with len()==16+need) and with one byte fewer (must be Partial(need-1, need)); non-trivial = reference says incomplete; distinct = hash of (control bytes, length, bytes present)",
         assumptions: &["completion is exercised when need <= 1024, or need - have <= 16, or the declared length is within 3 of a boundary (0,12,36,216,255,256,4096,32768,65280,65535); other (length, cut) pairs check the counts only"],
     }
 }
@@ -107,7 +107,7 @@ pub fn judge(input: &[u8], acc: &mut Acc) {
 }
 
 pub fn run(run: &Run) {
-    run.explore(&u2::LenUniverse { presents: u2::Presents::EveryUpTo(run.tier.pick(512, 4096)), name: "U2-len/every-cut" });
+    run.explore(&u2::LenUniverse { presents: u2::Presents::EveryUpTo(run.tier.pick(1024, 4096)), name: "U2-len/every-cut" });
     run.explore(&u2::CtlUniverse);
     run.explore(&u2::sig_universe());
     run.explore(&u2::byte_universe(run.tier.pick(3, 5)));
